@@ -34,6 +34,8 @@ CONSTANTS
   UpdNfcs,     \* set of BOOLEAN: do updates / releases repeat the consumer identification of the create
   AddrKinds,   \* address members of the consumer identification in a create: subset of {"none","v4","v6","fqdn","all"}
   SinkAnswers, \* statuses the consumer's notification endpoint may answer a re-authorisation notification with
+  Events,      \* TRUE: the model's subscribers also send one-time events (event based charging next to their sessions)
+  EvTypes,     \* values of oneTimeEventType a create may carry ("" = absent); legal with and without oneTimeEvent
   Traffic,     \* numbers of unrelated one-time creates (they advance the global record counter)
   EmitOneIn    \* behaviour emission: print one transition in EmitOneIn (seeded by -seed)
 
@@ -129,7 +131,7 @@ RefKind(t) ==
 \* ---- steps ----
 DoCreate ==
   /\ Cardinality(Dom(labels)) < MaxSess
-  /\ \E u \in Subs, c \in Consumers, tpl \in CreateTemplates, pad \in Pads, addr \in AddrKinds, cm \in ChidModes :
+  /\ \E u \in Subs, c \in Consumers, tpl \in CreateTemplates, pad \in Pads, addr \in AddrKinds, cm \in ChidModes, ett \in EvTypes :
        LET lab == "s" \o ToString(Cardinality(Dom(labels)) + 1)
            us  == Stamp(tpl, 1, nid)
            a   == [u |-> u, supi |-> Supi(u), sub |-> u, c |-> c, onetime |-> FALSE, usage |-> us,
@@ -142,8 +144,24 @@ DoCreate ==
           /\ labels' = Upd(labels, lab, [ref |-> r.resp.ref, u |-> u, live |-> TRUE])
           /\ nid' = nid + CountC(tpl, 1)
           /\ hist' = Append(hist, [a |-> "create", u |-> u, s |-> lab, c |-> c, usage |-> tpl,
-                                   pad |-> pad, chid |-> a.chid, addr |-> addr,
-                                   sig |-> StepSig("create:" \o addr \o ":" \o c \o ":" \o ToString(cm), st, r.st, u, us, r.resp, <<>>)])
+                                   pad |-> pad, chid |-> a.chid, addr |-> addr, ett |-> ett,
+                                   sig |-> StepSig("create:" \o addr \o ":" \o c \o ":" \o ToString(cm) \o ":" \o ett, st, r.st, u, us, r.resp, <<>>)])
+
+\* a one-time event of one of the model's subscribers: answered at once, opens no session, its record joins the
+\* subscriber's records
+DoEvent ==
+  /\ Events
+  /\ \E u \in Subs, c \in Consumers, ett \in EvTypes :
+       LET a  == [u |-> u, supi |-> Supi(u), sub |-> u, c |-> c, onetime |-> TRUE, usage |-> <<>>, chid |-> 0, pad |-> 0,
+                  notify |-> "n/" \o u \o "/e"]
+           r  == Create(st, a)
+           h2 == HCreate(h, a, r.resp)
+       IN /\ st' = r.st /\ h' = h2
+          /\ flags' = StateFlags(r.st, h2)
+          /\ hist' = Append(hist, [a |-> "create", u |-> u, s |-> "e", c |-> c, usage |-> <<>>, pad |-> 0, chid |-> 0, addr |-> "none",
+                                   onetime |-> TRUE, ett |-> ett,
+                                   sig |-> StepSig("event:" \o c \o ":" \o ett, st, r.st, u, <<>>, r.resp, <<>>)])
+          /\ UNCHANGED <<nid, labels>>
 
 Targets == {[s |-> l, u |-> labels[l].u, ref |-> labels[l].ref] : l \in {x \in Dom(labels) : labels[x].live \/ BadRefs}}
            \cup (IF BadRefs THEN {[s |-> "none", u |-> u, ref |-> "no-such-ref"] : u \in Subs}
@@ -241,7 +259,7 @@ DoTopUp ==
           /\ UNCHANGED <<nid, labels>>
 
 Next == /\ Steps < MaxSteps
-        /\ (DoCreate \/ DoUpdate \/ DoRelease \/ DoRecharge \/ DoTopUp \/ DoTraffic)
+        /\ (DoCreate \/ DoEvent \/ DoUpdate \/ DoRelease \/ DoRecharge \/ DoTopUp \/ DoTraffic)
 
 Spec == Init /\ [][Next]_vars
 
